@@ -10,6 +10,9 @@ package main
 //  (d) the same store behind a real dht.Server: inbound put/get datagrams and Server.Put
 //  (e) store faults, in (b) and (d): chosen Get/Put/Del calls of the underlying Store return an error
 //      that is not ErrItemNotFound (lines b44fput b44fget b44fwput b44fwget b44flput; model Bep44Fault.v)
+//  (g) items produced and reused the way an application does through the exported API (bep44_api.go):
+//      NewItem, Modify, ToPut / ToItem, struct copies, fields assigned after construction and after
+//      Check / Target were called, the same *Item put again after a change; in (a)-(d) and (f)
 //  (f) stores that copy / rebuild items (bep44_stores.go): custom implementations of the exported
 //      bep44.Store interface that do not hand back the *Item pointer they were given; sequential
 //      histories, wire level and Server.Put, ageing through VerifAge where the representation keeps the
@@ -81,6 +84,7 @@ func b44Engine(seed uint64, tier string, args []string) {
 	e.sequentialFaults()
 	e.rebuilding()
 	e.concurrent()
+	e.apiRoutes()
 	e.serverContained()
 }
 
@@ -155,12 +159,16 @@ type b44it struct {
 	cas  int64
 	seq  int64
 	note string
+	via  *b44via // how item() produces the *bep44.Item (nil: a struct literal); see bep44_api.go
 }
 
 func (x *b44it) mutable() bool { return x.k != [32]byte{} }
 
 // a fresh *bep44.Item every time: the store keeps the pointer it is given
 func (x *b44it) item() *bep44.Item {
+	if x.via != nil {
+		return x.via.make(x)
+	}
 	salt := append([]byte(nil), x.salt...)
 	if x.salt != nil && salt == nil {
 		salt = []byte{} // present but empty (what a decoder yields for `4:salt0:`) is not the same Go value as absent
@@ -173,6 +181,9 @@ func (x *b44it) args() string {
 }
 
 func (x *b44it) brief() string {
+	if x.via != nil {
+		return fmt.Sprintf("(seq=%d,cas=%d,v=%s,salt=%dB,%s,%s)", x.seq, x.cas, b44short(x.bv), len(x.salt), x.note, x.via)
+	}
 	return fmt.Sprintf("(seq=%d,cas=%d,v=%s,salt=%dB,%s)", x.seq, x.cas, b44short(x.bv), len(x.salt), x.note)
 }
 
@@ -862,7 +873,10 @@ func (c *b44case) putOracles(x *b44it, got string, before, after []bep44.VerifEn
 	c.seqDecreased(before, after, "seq-decreased:sequential-put", where)
 }
 
-func (c *b44case) get(t [20]byte) {
+func (c *b44case) get(t [20]byte) { c.getItem(t) }
+
+// ... and hands the item to the caller, as Wrapper.Get does
+func (c *b44case) getItem(t [20]byte) *bep44.Item {
 	c.nop++
 	before := c.dump()
 	t0 := time.Now()
@@ -878,6 +892,10 @@ func (c *b44case) get(t [20]byte) {
 	c.emit("b44get %s => %s | %s", hx(t[:]), res, b44dumpStr(after))
 	where := fmt.Sprintf("case=%s op#%d Wrapper.Get target=%s", c.name, c.nop, hx(t[:]))
 	c.getOraclesAt(t, it, before, after, where, t0, t1)
+	if err != nil {
+		return nil
+	}
+	return it
 }
 
 func (c *b44case) getOracles(t [20]byte, it *bep44.Item, before, after []bep44.VerifEntry, where string) {
@@ -888,6 +906,7 @@ func (c *b44case) getOracles(t [20]byte, it *bep44.Item, before, after []bep44.V
 func (c *b44case) getOraclesAt(t [20]byte, it *bep44.Item, before, after []bep44.VerifEntry, where string, t0, t1 time.Time) {
 	st := b44find(before, t)
 	if it != nil {
+		c.servedOracle(t, b44itOf(it, "served"), where)
 		if c.surelyExpired(bep44.VerifCreated(it), t0) {
 			c.e.fire("C13", "expired-item-served", "%s age=%dmin", where, b44vage(bep44.VerifCreated(it)))
 		}
@@ -1758,7 +1777,17 @@ func (v *b44srv) wgetF(t [20]byte, seq *int64, f b44fault) {
 				v.c.trueAgeOracle(t, t0, where)
 			}
 			res = fmt.Sprintf("seq=%s %s %s %s", rs, hx(m.R.V), hx(m.R.K[:]), hx(m.R.Sig[:]))
-			// C12/C13 from the reply alone
+			// C12 from the reply alone (the salt is not sent: it is the one of the slot that was asked for)
+			if st != nil {
+				sv := &b44it{bv: m.R.V, k: m.R.K, sig: m.R.Sig, salt: st.Item.Salt, note: "served"}
+				if m.R.Seq != nil {
+					sv.seq = *m.R.Seq
+				} else if sv.mutable() {
+					v.c.e.fire("C12", "forged-item-served:no-seq", "%s", where)
+				}
+				v.c.servedOracle(t, sv, where)
+			}
+			// C12/C13 from the reply and the store
 			if st == nil || !bytes.Equal(bencode.MustMarshal(st.Item.V), m.R.V) || st.Item.K != m.R.K || st.Item.Sig != m.R.Sig {
 				v.c.e.fire("C12", "served-item-not-the-stored-one", "%s", where)
 			} else if v.c.stampsVisible() && v.c.surelyExpired(st.Created, t0) {
@@ -1803,6 +1832,9 @@ func (v *b44srv) lputF(x *b44it, f b44fault) {
 		k := x.k
 		p.K = &k
 		ks = hx(k[:])
+	}
+	if x.via != nil {
+		p = x.item().ToPut() // the record of an Item the application holds (K points into that Item)
 	}
 	ctx, cancel := context.WithCancel(context.Background())
 	done := make(chan dht.QueryResult, 1)
@@ -1959,6 +1991,7 @@ func (e *b44env) server() {
 		}
 		v.close()
 	}
+	e.serverAPI()
 }
 
 // the ends of the int64 range and their neighbours, and the values around zero
